@@ -392,6 +392,17 @@ func Run(a Matrix, args ...interface{}) (Matrix, Matrix, error) {
       panic("InSitu must be passed by reference")
     }
   }
+  if epsilon < 0.0 {
+    return nil, nil, fmt.Errorf("invalid epsilon")
+  }
+  // the convergence tests never succeed on NaN or Inf values
+  for i := 0; i < n; i++ {
+    for j := 0; j < m; j++ {
+      if v := a.ConstAt(i,j).GetFloat64(); math.IsNaN(v) || math.IsInf(v, 0) {
+        return nil, nil, fmt.Errorf("`a' contains NaN or Inf values")
+      }
+    }
+  }
   if inSitu.H == nil {
     inSitu.H = a.CloneMatrix()
     inSitu.Hessenberg.H = inSitu.H
